@@ -31,6 +31,7 @@
      accepted / refused is compared). *)
 From Coq Require Import List NArith Permutation Sorted.
 From Verif Require Import Model.Cfg Model.CfgFull Proofs.CfgSortP Proofs.CfgPrefix Proofs.CfgIsortP Proofs.CfgFullP.
+From Verif Require Import Model.Reconciler Proofs.ReconcilerP Proofs.ReconcilerCfgP.
 Local Open Scope N_scope.
 
 (* ---------------------------------------------------------------- the sort *)
@@ -179,6 +180,79 @@ Proof. exact refused_listing_keeps_state. Qed.
 
 Theorem C18_refusal_stages : forall iter m fr, stage_result iter m fr (full_for iter m fr).
 Proof. exact full_for_stages. Qed.
+
+(* ---------------------------------------------------------------- the reconcilers as a state machine *)
+(* Model/Reconciler.v: one step = one Reconcile call of ConfigReconciler ([pool] = false) or
+   PoolReconciler ([pool] = true) after the listing: inputs = what the current cluster state
+   renders to (None = toConfig fails) and the handler's answer; outputs = handler called with
+   what, requeue, ForceReload.  [hrun] folds a whole history from the initial state and tracks the
+   configuration last GIVEN to / last ACCEPTED by the handler.  [ceq] is reflect.DeepEqual,
+   assumed to decide equality of the configuration values.  All statements are over arbitrary
+   event sequences.  Not in the model: which requests are enqueued (update predicates), API List
+   failures - exercised on the real code by harness TestVerifReconciler. *)
+
+(* (a) the handler is skipped on a rendered configuration only when it is the configuration the
+   handler was last given (ConfigReconciler) / last accepted (PoolReconciler) *)
+Theorem C18_reconciler_skips_only_unchanged :
+  forall (C : Type) (ceq : C -> C -> bool), (forall x y, ceq x y = true <-> x = y) ->
+  forall pool evs c h, let s := hrun ceq pool evs hinit in
+  o_called (snd (hstep ceq pool s (Some c, h))) = None ->
+  if pool then h_accepted s = Some c else h_given s = Some c.
+Proof. exact @skipped_only_when_unchanged_run. Qed.
+
+(* (b) history independence, ConfigReconciler: after any history, a step whose snapshot renders to
+   c and that ends without requeue leaves c as the configuration last given to the handler -
+   what a fresh reconciler gives (C18_reconciler_fresh_gives_rendered) *)
+Theorem C18_reconciler_config_history_independent :
+  forall (C : Type) (ceq : C -> C -> bool), (forall x y, ceq x y = true <-> x = y) ->
+  forall evs c h, o_requeue (snd (hstep ceq false (hrun ceq false evs hinit) (Some c, h))) = false ->
+  h_given (hrun ceq false (evs ++ [(Some c, h)]) hinit) = Some c.
+Proof. exact @config_history_independent. Qed.
+
+(* (b) PoolReconciler: the configuration last ACCEPTED, when the handler did not answer
+   ErrorNoRetry in that step *)
+Theorem C18_reconciler_pool_history_independent :
+  forall (C : Type) (ceq : C -> C -> bool), (forall x y, ceq x y = true <-> x = y) ->
+  forall evs c h, h <> HErrorNoRetry ->
+  o_requeue (snd (hstep ceq true (hrun ceq true evs hinit) (Some c, h))) = false ->
+  h_accepted (hrun ceq true (evs ++ [(Some c, h)]) hinit) = Some c.
+Proof. exact @pool_history_independent. Qed.
+
+(* ... and the restriction is real: PoolReconciler assigns currentConfig only after Success /
+   ReprocessAll, so after [a; b answered ErrorNoRetry; a] no step requeued, the last snapshot
+   renders to a, and the handler was last given b.  (Harmless with the controller's SetPools,
+   which answers ErrorNoRetry only for a nil pool set and before touching the allocator.) *)
+Theorem C18_reconciler_pool_given_after_noretry_refuted :
+  forall (C : Type) (ceq : C -> C -> bool), (forall x y, ceq x y = true <-> x = y) ->
+  forall a b : C, a <> b ->
+  exists evs, h_given (hrun ceq true evs hinit) = Some b /\
+              (forall o, In o (outs ceq true evs hinit) -> o_requeue o = false) /\
+              fst (last evs (None, HSuccess)) = Some a.
+Proof. exact @pool_given_not_rendered_after_noretry_refuted. Qed.
+
+(* (c) requeue iff the handler was called and answered Error; (d) ForceReload iff it was called
+   and answered ReprocessAll (a render failure does neither) *)
+Theorem C18_reconciler_requeue_iff_error :
+  forall (C : Type) (ceq : C -> C -> bool) pool s r h,
+  o_requeue (snd (hstep ceq pool s (r, h))) = true <->
+  (o_called (snd (hstep ceq pool s (r, h))) <> None /\ h = HError).
+Proof. exact @requeue_iff_error. Qed.
+
+Theorem C18_reconciler_reload_iff_reprocessall :
+  forall (C : Type) (ceq : C -> C -> bool) pool s r h,
+  o_reload (snd (hstep ceq pool s (r, h))) = true <->
+  (o_called (snd (hstep ceq pool s (r, h))) <> None /\ h = HReprocessAll).
+Proof. exact @reload_iff_reprocess. Qed.
+
+(* the handler is only ever given what the current state renders to; a fresh reconciler gives it *)
+Theorem C18_reconciler_called_with_rendered :
+  forall (C : Type) (ceq : C -> C -> bool) pool s r h c,
+  o_called (snd (hstep ceq pool s (r, h))) = Some c -> r = Some c.
+Proof. exact @called_with_rendered. Qed.
+
+Theorem C18_reconciler_fresh_gives_rendered :
+  forall (C : Type) (ceq : C -> C -> bool) pool c h, o_called (snd (hstep ceq pool hinit (Some c, h))) = Some c.
+Proof. exact @fresh_gives_rendered. Qed.
 
 (* ---------------------------------------------------------------- non-vacuity *)
 Example C18_nonvacuous :
